@@ -49,3 +49,14 @@ def validate_model(ctx):
     if differ or x.get("spec_examples_agree", 0) < 600:
         raise vlib.Infra("Full.tla disagrees with the CommonMark specification's own examples (a defect of the model, not a verdict): %s"
                          % str(differ[:3])[:1500])
+
+
+LEMMAS = "QuoteHtmlLemma ListHtmlLemma EolHtmlLemma FinalNewlineHtmlLemma ReparseHtmlLemma"
+
+
+def run_lemmas(ctx):
+    """Model-level: the relational properties C09 / C14 / C16 as theorems of the composed model, on every generated document."""
+    n = 2
+    sets = ["fullA", "fullB", "fullC"] if ctx.tier == "quick" else ["fullA", "fullB", "fullC", "fullD"]
+    jobs = [dict(module="Full", cfg_text=cfg(s, n).replace("CONSTRAINT Emit\n", "INVARIANTS %s\n" % LEMMAS), name="Full_lemmas_%s%d" % (s, n), workers=8, timeout=6000) for s in sets]
+    ctx.tlc_many(jobs, parallel=2)
